@@ -25,17 +25,21 @@ P = {
         "n_quick": 1200, "n_thorough": 24000, "shard": 40,
         "findings": {1: "C06-F1", 2: "C06-F2", 3: "C06-F3", 4: "C06-F4", 5: "C06-F5", 6: "C06-F6"},
     }],
-    "rule": "histories of 2..25 rule-set creations / updates / deletions over 1..3 sources through the REAL rule-set processor "
-            "(OnCreated/OnUpdated/OnDeleted with config.RuleSet values; 5 % of the operations with an unsupported version or a rule "
-            "the factory cannot create) into the REAL repository (newRepository, Add/Update/DeleteRuleSet, FindRule; real "
-            "ruleImpl/routeImpl with SameAs/EqualTo and the real methodMatcher as route conditions; rule hash = the real "
-            "config.Rule.Hash() of the whole rule).  Rule sets are mutated version to version (definition "
-            "only / methods / flag / paths added-removed-replaced / rule added anywhere / removed / reordered / unchanged; cross-source "
-            "collisions, invalid expressions, escapes, ':' '*' inside segments, varying wildcard names, duplicate paths and ids in "
-            "dedicated profiles); after EVERY prefix 10..40 probe requests (instantiations of the expressions in use and near misses, "
-            "3 methods) are looked up in the history repository and in a real repository freshly loaded with the sets accepted so far. "
-            "Corpus (witnesses of C06-F1..F6 incl. the repaired F3/F4/F5 and the former delNode panic, plain histories) first.  Non-trivial = the history contains an "
-            "accepted update that changes the definition of an existing rule; distinct by hash of the generated input",
+    "rule": "histories of 2..25 (a 'big' profile: up to 22 operations on sets of 16..26 rules sharing 2..4 expressions) rule-set "
+            "creations / updates / deletions over 1..5 sources through the REAL rule-set processor (OnCreated/OnUpdated/OnDeleted with "
+            "config.RuleSet values; 5 % of the operations with an unsupported version or a rule the factory cannot create) into the "
+            "REAL repository (newRepository, Add/Update/DeleteRuleSet, FindRule; real ruleImpl/routeImpl with SameAs/EqualTo and the "
+            "real methodMatcher as route conditions; rule hash = the real config.Rule.Hash() of the whole rule).  Source ids and rule "
+            "ids come from families of prefix-/case-related names (s1, s10, S1, '', file:///rules/a.yaml, ...).  Rule sets are mutated "
+            "version to version (one field of the definition only - execute, forward_to, hosts, scheme, allow_encoded_slashes, "
+            "on_error, path_params - / methods / flag / paths added-removed-replaced / rule added anywhere / removed / reordered / "
+            "unchanged / EMPTY set; deletion of unknown sources; cross-source collisions, invalid expressions, escapes, ':' '*' inside "
+            "segments, varying wildcard names, empty / percent-encoded / non-ASCII segments, no leading slash, duplicate paths and ids "
+            "in dedicated profiles); after EVERY prefix 10..40 probe requests (instantiations of the expressions in use and near misses, "
+            "3 methods, a quarter of them handed over as URL.RawPath) are looked up in the history repository and in a real repository "
+            "freshly loaded with the sets accepted so far; the rule found AND the captures left in the request are observed.  Corpus "
+            "(witnesses of C06-F1..F6 incl. the repaired F3/F4/F5 and the former delNode panic, plain histories) first.  Non-trivial = "
+            "the history contains an accepted update that changes the definition of an existing rule; distinct by hash of the generated input",
     "anchors": ["internal/rules/repository_impl.go", "internal/x/radixtree/tree.go",
                 "internal/rules/ruleset_processor_impl.go", "internal/rules/rule_impl.go"],
     "trusted": ["the theorems are about the repository over the ABSTRACT index (pattern -> values, flag; no node compression; a node's "
@@ -54,28 +58,36 @@ P = {
                 "routes, methods, backtracking flag, hash = the real config.Rule.Hash()); rule_factory_impl.go is property C14",
                 "sortStaticChildren/priority left out of the transcription (only permutes children searched by unique first byte)"],
     "level_text": "Proof (kernel-checked, no axioms), by induction over ALL histories of rule-set creations/updates/deletions with an "
-                  "invariant relating the known rules and the index to the specification's current rule sets: for the tree as it is "
-                  "now (repairs 2d9cd1f, 003095f, f6ce52b of C06-F3/F4/F5), outside the guards of the three open findings, the index "
-                  "after the history EQUALS the index of a fresh load of the current sets (hence every lookup, for every path and "
-                  "every outcome of the rules' conditions, agrees); a change is rejected iff it cannot be applied (invalid expression / "
-                  "incompatible wildcard names / expression owned by another set) and then leaves the state unchanged (the latter "
-                  "unconditionally); lookups only return rules of current versions; a node holds rules of one source.  The same "
-                  "theorems hold for every combination of the repairs (pinned commit: six guards); every finding has a `_refuted` / "
-                  "`_pinned_refuted` witness.  The model is tied to the Go code by running ~1200 (quick) / 24000 (thorough) generated "
-                  "histories per run through the real repository and comparing, after every prefix, outcomes and lookups with the "
-                  "transcribed tree, with the abstract model and with a freshly built REAL repository (the property stated directly "
-                  "on the implementation).",
-    "level_note": "Partial in one respect: the theorems are proved for the repository over the abstract pattern-map index; the step from "
-                  "the transcribed compressed radix tree (C06/Tree.v) to that index is tested on every run (every generated history), "
-                  "not proved.  Open findings (guards in the theorem): C06-F1 changed rule re-appended / reordering ignored, C06-F2 node "
-                  "flag = last Add, C06-F6 duplicate rule ids in one set.  Repaired by fix: commits: C06-F3 (delete after a prefix split "
-                  "before ':' '*' or an escape), C06-F4 (duplicate path in one rule, incl. a delNode panic), C06-F5 (stale wildcard key "
-                  "names); the pinned behaviour is documented by `_pinned_refuted` theorems.  Histories that create an already existing "
-                  "rule set are outside the property (not judged).  Trusted: Coq kernel/vm_compute; the harness (generator, ruleImpl "
-                  "construction, Gallina rendering).",
+                  "invariant relating the known rules and the index to the specification's current rule sets, kept per source: for the "
+                  "tree as it is now (repairs 2d9cd1f, 003095f, f6ce52b of C06-F3/F4/F5), whenever no source is left in the state the open "
+                  "findings C06-F1/F2 leave (`dirty ops = []`; deleting a rule set cleans its source), the index after the history EQUALS "
+                  "the index of a fresh load of the current sets (hence every lookup, for every path and every outcome of the rules' "
+                  "conditions, finds the same rule).  Also for histories that went through C06-F1/F2: a change is rejected iff it cannot "
+                  "be applied (invalid expression incl. incompatible wildcard names / expression owned by another set) and then leaves "
+                  "the state unchanged; lookups only return rules of current versions; every route of every current rule is indexed; a "
+                  "node holds rules of one source.  Only hypothesis besides well-formedness: no submitted rule set has duplicate rule ids "
+                  "(C06-F6).  Every finding has a `_refuted` / `_pinned_refuted` witness.  The model is tied to the Go code by running "
+                  "~1200 (quick) / 24000 (thorough) generated histories per run through the real processor+repository and comparing, after "
+                  "every prefix, accept/reject/crash and lookups with the transcribed tree and the abstract model; the property predicate "
+                  "itself is model-free (accepted iff the specification says so; history repository = freshly built REAL repository, rule "
+                  "and captures) and is judged per prefix.",
+    "level_note": "Partial: (1) the theorems are proved for the repository over the abstract pattern-map index; the step from the "
+                  "transcribed compressed radix tree (C06/Tree.v) to that index is tested on every run, not proved; both sides of the "
+                  "main equation use the same model lookup/add, so a wrong lookup is the business of C02/C03 and of the differential run. "
+                  "(2) 'exactly' is proved for the rule found; captures/key names are compared history-vs-fresh on the implementation "
+                  "only.  (3) The order clause of the statement is refuted (C06-F1), not proved; inside `dirty` only the membership-level "
+                  "theorems hold.  (4) That a rejected change leaves no trace is true of the model by construction (work on a value); "
+                  "clone depth / swap-on-success are covered by the differential run only.  Open findings: C06-F1 changed rule "
+                  "re-appended / reordering ignored, C06-F2 node flag = last Add, C06-F6 duplicate rule ids.  Repaired by fix: commits: "
+                  "C06-F3, C06-F4 (incl. a delNode panic), C06-F5; pinned behaviour documented by `_pinned_refuted` theorems.  Histories "
+                  "that create an already existing rule set are judged up to that step.  Trusted: Coq kernel/vm_compute; the harness "
+                  "(generator, stub rule factory, Gallina rendering).",
     "assumptions": ["the driver's stub factory constructs ruleImpl/routeImpl values directly (in-package): a rename of their fields breaks "
                     "the driver, not the property",
                     "lookups are made without a default rule (FindRule returns ErrNoRuleFound = 'no rule')",
+                    "compared with the models: the class of an operation's outcome (applied / rejected / crashed), not the error kind or text",
+                    "a driver that no longer compiles (renamed ruleImpl field) is reported by lib/runner.py as a broken correspondence stream; "
+                    "it should be 'driver broken' (framework change request)",
                     "lookups follow tree.go after the fix: commits e897fef (C02-F1), 88da16a (C03-F2), 16cf34b (C03-F5): check term "
                     "`check false`; `check true` is the pinned behaviour (a failed free-wildcard node consults its parent's flag)"],
 }
